@@ -471,7 +471,7 @@ class Intrinsics:
                                 c = eng.contracts.get("SyncedCollection._from_base.map")
                                 if c is None:
                                     raise Unsupported("no lifted _from_base contract")
-                                eng.used_contracts.add("SyncedCollection._from_base.map")
+                                eng.used_contracts.add("SyncedCollection._from_base.map"); eng.note("[L-MAP]")
                                 outs.extend(c.apply(eng, z, [recv, src], {"parent": par}))
                     return outs
         if kind == "dict" and len(e.generators) == 1 and not e.generators[0].ifs:
@@ -495,7 +495,7 @@ class Intrinsics:
                         for (y, recv) in eng.ev(el.func.value, x):
                             for (z, par) in eng.ev(parents[0], y):
                                 c = eng.contracts.get("SyncedCollection._from_base.map")
-                                eng.used_contracts.add("SyncedCollection._from_base.map")
+                                eng.used_contracts.add("SyncedCollection._from_base.map"); eng.note("[L-MAP]")
                                 outs.extend(c.apply(eng, z, [recv, src], {"parent": par, "$kind": Const("dict")}))
                     return outs
         if kind == "list" and len(e.generators) == 1 and len(e.generators[0].ifs) == 1:
